@@ -203,7 +203,8 @@ def _run_case(site, tool, args, seed, stdin, fix, tmp, thorough):
     return jobs
 
 
-def replay_cli(site, tool, args, seed, stdin=''):
+def replay_cli(site, tool, args, seed, stdin='', key=None):
+    """True iff the difference named by `key` (any difference if key is None) does not occur"""
     with tempfile.TemporaryDirectory() as fix, tempfile.TemporaryDirectory() as tmp:
         x_cli.make_fixtures(fix)
         _extra_fixtures(fix)
@@ -212,6 +213,8 @@ def replay_cli(site, tool, args, seed, stdin=''):
         bad = judge(site, tool, args, seed, list(zip([c[0] for c in _configs(tmp, True)], res)))
         for b in bad or []:
             print('  ', b)
+        if key is not None:
+            return key not in [b[0] for b in bad or []]
         return not bad
 
 
@@ -273,7 +276,7 @@ def bounded_cli(ctx):
                 continue
             for key, text in bad:
                 ctx.violation(key, '{} {}{} :: {}'.format(tool, '' if seed is None else '--seed {} '.format(seed), ' '.join(args), text),
-                              {'fn': 'checks.C07:replay_cli', 'args': dict(site=site, tool=tool, args=args, seed=seed,
+                              {'fn': 'checks.C07:replay_cli', 'args': dict(site=site, tool=tool, args=args, seed=seed, key=key,
                                                                          stdin=(bigtxt if stdin == 'BIG' else stdin))})
         # every formula sub-command of the tool must be in the list
         core.import_repo()
